@@ -183,6 +183,20 @@ def msgUncopyable (m : Json) : Bool :=
   | .ok y => yamlBadKey y
   | _ => rawYamlMapping m
 
+/-- F-C10-8: the query addresses an array element by a huge index: a `[` followed (after an optional `+`) by five or
+    more digits (`%5B` counts as `[`) -/
+def digitsRun : List Char → Nat
+  | c :: cs => if c.isDigit then digitsRun cs + 1 else 0
+  | [] => 0
+def hugeIndexChars : List Char → Bool
+  | [] => false
+  | '[' :: rest =>
+    let r := match rest with | '+' :: r' => r' | _ => rest
+    digitsRun r ≥ 5 || hugeIndexChars rest
+  | _ :: rest => hugeIndexChars rest
+def hugeIndexQuery (q : String) : Bool :=
+  hugeIndexChars (((q.replace "%5B" "[").replace "%5b" "[").replace "%2B" "+").toList
+
 def headerVals (j : Json) : List String :=
   (getArr j "headers").map (fun h => match h with | .arr #[_, v] => asStr v | _ => "")
 
@@ -262,8 +276,9 @@ def handleTraffic (j : Json) : Json :=
   let emp := docEmptinessCycle doc
   let unenc := msgUnencodable req || msgUnencodable (getD j "resp" Json.null)
   let uncopy := msgUncopyable req || msgUncopyable (getD j "resp" Json.null)
+  let huge := hugeIndexQuery (getStr req "query")
   let excl := (if exRec then ["UnguardedRecursion"] else []) ++ (if unenc then ["UnencodableErrorValue"] else []) ++
-              (if uncopy then ["UncopyableYamlKey"] else [])
+              (if uncopy then ["UncopyableYamlKey"] else []) ++ (if huge then ["HugeArrayIndex"] else [])
   let branches :=
     featureBranches doc ++
     (if router == "legacy" then ["route.legacy." ++ routeStr route] else ["route.gorilla"]) ++
@@ -282,8 +297,8 @@ def handleTraffic (j : Json) : Json :=
   -- the traffic model leaves the decoders' and the validator's answers open (`Bits`): what it says about one
   -- concrete exchange is the SET of outcomes it allows — normal return always, unbounded recursion only when an
   -- unguarded cycle is reachable, a panic in an error's text only when a decoded value may be non-JSON, a panic
-  -- in deepcopy only when a YAML mapping may have a null or NaN key
-  jobj [("model", jobj [("may_crash", Json.bool exRec), ("may_unprintable", Json.bool unenc), ("may_copy_panic", Json.bool uncopy),
+  -- in deepcopy only when a YAML mapping may have a null or NaN key, exhaustion only with a huge bracketed index
+  jobj [("model", jobj [("may_crash", Json.bool exRec), ("may_unprintable", Json.bool unenc), ("may_copy_panic", Json.bool uncopy), ("may_exhaust", Json.bool huge),
                         ("route", if router == "legacy" then Json.str (routeStr route) else Json.null)]),
         ("spec", jobj [("panic", Json.bool false)]),
         ("excl", jstrs excl), ("branches", jstrs branches)]
